@@ -228,14 +228,17 @@ def mk_reentry(props, K=2):
         A = TaskD("A", SEQ(*steps))
         Bt = fam.chain("B", dbv, kbv, v + 10)
         td = TaskD("root", Y(4, TASK(A), TASK(Bt)))
-        hook = _hook_sync(kbv, 1 - kbv, v) if concb(fh) else None
+        # fh: 0 plain flush bodies; 1 the flush body of kind kb synchronously calls into asynq and waits for an item
+        # of the OTHER kind; 2 ... for a new item of its OWN kind (which must join a fresh batch)
+        fhv = conc(fh, 3)
+        hook = _hook_sync(kbv, (1 - kbv) if fhv == 1 else kbv, v) if fhv else None
         return check_program(td, props, nkinds=K, prio=[p0, p1], hash_order=conc(ho, 2), flush_hook=hook,
-                             sig=("reentry", posv, sp, kav, kcv, kbv, dcv, dbv, concb(fh)))
+                             sig=("reentry", posv, sp, kav, kcv, kbv, dcv, dbv, fhv))
     return f
 
 
 REENTRY_PARAMS = [I("pos", 0, 2), I("spelling", 0, 2), I("ka", 0, 1), I("kc", 0, 1), I("kb", 0, 1),
-                  I("dc", 0, 2), I("db", 0, 2), B("fh"), I("p0"), I("p1"), I("ho", 0, 1), I("v")]
+                  I("dc", 0, 2), I("db", 0, 2), I("fh", 0, 2), I("p0"), I("p1"), I("ho", 0, 1), I("v")]
 
 
 # ---------------------------------------------------------------------------------------
